@@ -60,7 +60,7 @@ def no_nul(s, maxlen):
 @guard
 def o1(tier):
     """AAD / HKDF context injectivity"""
-    L = 6 if tier == 'quick' else 12
+    L = 6 if tier == 'quick' else 8
     ob = Ob('O1', f'build_aad and build_hkdf_context are injective: equal output => equal (hash, MIME type, file name, suffix), for all 32-byte hashes and all NUL-free MIME types / file names of 1..{L} bytes',
             models=seq_models(), loop_bound=4)
     total = 0
@@ -227,8 +227,17 @@ def o5(tier):
     r.title = 'SQLite (shared with C09-O2): the snapshot reads every exporter-secret row of the group (no LIMIT / ORDER truncation) and the rollback writes all of them back, so media of any earlier epoch stays decryptable after a commit race'
     return r
 
+def o6(tier):
+    """the epoch hint a receiver uses to find the media key is the epoch the announcing message was created in, whenever it was processed"""
+    from props import C04
+    r = C04.o3(tier)
+    r.oid = 'O6'
+    r.title = 'shared with C04-O3: the announcing message is recorded under its own epoch (the epoch whose exporter secret the sender used), regardless of when the receiver processed it -- ' + r.title[:160]
+    return r
+
+
 def run(tier, seed, only=None):
-    obs = [('O1', o1), ('O2', o2), ('O3', o3), ('O4', o4), ('O5', o5)]
+    obs = [('O1', o1), ('O2', o2), ('O3', o3), ('O4', o4), ('O5', o5), ('O6', o6)]
     out = []
     for k, f in obs:
         if only and k not in only:
